@@ -61,6 +61,12 @@ let run () =
               end else begin
                 ms := m2; pending := []; out (res ^ " newversion twin=true")
               end))
+      | ["M"; name] ->
+        (* a store mounted for the first time on a database that already holds commits, then LoadLatestVersion *)
+        let m0 = { !ms with ms_trees = (!ms).ms_trees @ [(nm name, tree_empty)] } in
+        (match reopen m0 with
+         | Some m -> ms := m; pending := []; out (Printf.sprintf "ok ver=%s info=true %s" (ver m) (contents m))
+         | None -> out "err"; dead := true)
       | ["R"] ->
         (match reopen !ms with
          | Some m -> ms := m; pending := []; out (Printf.sprintf "ok ver=%s info=true %s" (ver m) (contents m))
